@@ -17,7 +17,8 @@ TRUSTED = G.TRUSTED + [
 EXPLANATION = ("Greedy part of C10: theorems in Props/C10_greedy.v (contract, replay = final virtual cluster, feasibility invariant, first fit, copy mode, F10 refutation); the Coq monitor contract_check (proved equivalent to the Contract Prop) runs on the implementation's decisions with the documented copy mode; side effects are looked for by comparing every getter before/after; F10-signature inputs live in a stream of their own (model still predicts the duplicated decisions exactly).")
 PROPS_FILE = "C10_greedy"
 F10_WHAT = ("preemptive EDF/LSF with >= 2 task graphs: each graph's get_schedulable_tasks appends all resident tasks, so a "
-            "running task is offered and decided once per graph (workload/tasks.py:1188-1191, workload/workload.py:296-309)")
+            "running task is offered once per graph and is decided twice, or (since /repo 17757a8) schedule() raises when the "
+            "second placement hits the pool that already holds it (workload/tasks.py:1186-1190, workload/workload.py:296-311)")
 
 
 def has_dup(r):
@@ -90,17 +91,28 @@ def run(ctx):
         c = G.gen_case(ctx.rng, allow_f10=True, force_policy=ctx.rng.choice([0, 2]))
         if G.f10_signature(c):
             f10.append(c)
-    wpath = os.path.join(core.ROOT, "corpus", "C13", "known", "F10.json")
-    wit = json.load(open(wpath))["case"] if os.path.exists(wpath) else None
-    fi = G.run_impl(([wit] if wit else []) + f10)
-    if wit is not None:
-        wr, fi = fi[0], fi[1:]
-        if has_dup(wr):
-            ctx.known("F10", "%s; witness corpus/C13/known/F10.json replayed: decisions %s" % (F10_WHAT, wr["result"][1]))
+    kdir = os.path.join(core.ROOT, "corpus", "C13", "known")
+    wits = []
+    for f in ("F10.json", "F10b.json"):
+        if os.path.exists(os.path.join(kdir, f)):
+            wits.append((f, json.load(open(os.path.join(kdir, f)))["case"]))
+    fi = G.run_impl([w for _, w in wits] + f10)
+    wrs, fi = fi[:len(wits)], fi[len(wits):]
+    symptoms = []
+    for (f, w), wr in zip(wits, wrs):
+        dup_offer = len(set(wr["offered"])) != len(wr["offered"])
+        if dup_offer and has_dup(wr):
+            symptoms.append("%s: two decisions for one task %s" % (f, wr["result"][1]))
+        elif dup_offer and wr["result"] == [1, 3]:
+            symptoms.append("%s: schedule() raises ValueError (task already placed on the pool)" % f)
         else:
-            ctx.violation("F10_gone", {"what": "the recorded witness of known finding F10 no longer shows duplicate decisions; "
-                                               "remove the exclusion of its input signature", "case": wit,
-                                       "implementation": wr["result"]}, no_input=True)
+            ctx.violation("F10_gone_%s" % f[:-5],
+                          {"what": "the recorded witness of known finding F10 no longer shows its symptom (a running task offered "
+                                   "twice, hence decided twice or refused by place_task); remove the exclusion of its input signature",
+                           "case": w, "implementation": wr["result"], "offered": wr["offered"]}, no_input=True)
+    if symptoms:
+        ctx.known("F10", "%s; witnesses in corpus/C13/known replayed: %s" % (F10_WHAT, "; ".join(symptoms)))
+    G.stream_greedy(ctx, [w for _, w in wits], wrs, name="S-greedy-f10-witness")
     # the model given the (duplicated) offered list still predicts the decisions exactly
     G.stream_greedy(ctx, f10, fi, name="S-greedy-f10")
     dups = sum(1 for r in fi if has_dup(r))
@@ -108,10 +120,15 @@ def run(ctx):
     G.monitor(ctx, "M-contract-f10", "mon_contract", f10, fi, lambda c, r: len(set(r["offered"])) == len(r["offered"]),
               "contract broken on an input without duplicated offers")
     for c, r in zip(f10, fi):
+        if r["result"] == [1, 3] and len(set(r["offered"])) == len(r["offered"]):
+            ctx.violation("raise_no_f10", {"stream": "C10-greedy F10", "case": c, "implementation": r["result"],
+                                           "error": r.get("error"), "what": "schedule() raises although no task was offered twice"})
+            break
         if r["result"][0] == 0 and has_dup(r) and len(set(r["offered"])) == len(r["offered"]):
             ctx.violation("dup_no_f10", {"stream": "C10-greedy F10", "case": c, "implementation": r["result"],
                                          "what": "two decisions for one task although it was offered once"})
             break
-    dist["c10_greedy"]["f10_stream"] = {"cases": len(f10), "with_duplicate_decisions": dups}
+    dist["c10_greedy"]["f10_stream"] = {"cases": len(f10), "with_duplicate_decisions": dups,
+                                        "raising_already_placed": sum(1 for r in fi if r["result"] == [1, 3])}
     if ctx.broken and not ctx.violations:
         G.fallback_search(ctx, cases, impl, tag="c10ref")
